@@ -37,14 +37,14 @@ def build_traces(run, rng, cat):
     traces = []
     seqs = []
     # (i) exhaustive: all behaviours of the order machine up to MaxLen
-    behs = gen.behaviours('Gen_Writer', {'MaxLen': 5 if quick else 6, 'MaxRej': 2 if quick else 3,
-                                         'NEnc': 0 if quick else 1, 'NVar': 0}, run=run)
+    behs = gen.behaviours('Gen_Writer', {'MaxLen': 5 if quick else 7, 'MaxRej': 2,
+                                         'NEnc': 0, 'NVar': 0, 'ContentEnc': 'TRUE'}, run=run)
     for b in behs:
         seqs.append([pools.conc_call(c['op'], c['e'], 0, rng, simple=True) for c in b])
     n_ex = len(seqs)
     # (ii) random walks far beyond the bound, with argument variants
     walks = gen.behaviours('Gen_Writer', {'MaxLen': 14 if quick else 30, 'MaxRej': 5 if quick else 10,
-                                          'NEnc': 3, 'NVar': 3},
+                                          'NEnc': 3, 'NVar': 3, 'ContentEnc': 'TRUE'},
                            simulate=400 if quick else 6000, depth=15 if quick else 31,
                            seed=run.seed + 1, run=run)
     for b in walks:
